@@ -7,7 +7,8 @@ Property theorems about the model `Model/Remora.lean`:
   element-wise definition (quickref `remora.rst`); every rewrite rule of
   `detail/expression_optimizers.hpp` preserves it — those 86 lemmas are **generated** on every run
   by `translate/remora_rules.py` into `Gen/RemoraRules.lean`; `optimize_sound` lifts per-rule
-  soundness to any composition of rules (any recursive optimiser built from sound steps);
+  soundness (denotation and well-formedness preserved) to any composition of rules; `genOpt_run_sound`
+  instantiates it for the optimiser generated from the rule table (`Gen/RemoraOpt.lean`);
 * `assign_alias_correct`: the aliasing assignment forms `x op= e` give
   `x'(i) = f(x(i), ⟦e⟧_old(i))` and leave everything else untouched, for **every** `e`, also when
   `e` reads the target (the "target appears on the right-hand side" clause);
@@ -63,74 +64,29 @@ def Optimizer.run (o : Optimizer R) : Nat → (VExp R → VExp R) × (MExp R →
   | 0 => (id, id)
   | n+1 => (o.stepV (o.run n).1 (o.run n).2, o.stepM (o.run n).1 (o.run n).2)
 
-/-- every layer is sound *given* that the recursive calls are: exactly the shape of the
-generated `rule_*` lemmas (recursive call = fresh variable + induction hypothesis) -/
+/-- every layer is sound *given* that the recursive calls are — denotation preserved **and**
+well-formedness preserved (so that rules compose): exactly the shape of the generated
+`rule_*` / `rule_*_wf` lemmas (recursive call = fresh variable + induction hypothesis) -/
 structure Optimizer.Sound (o : Optimizer R) : Prop where
-  v : ∀ recV recM, (∀ e : VExp R, e.WF → recV e ≈ᵥ e) → (∀ m : MExp R, m.WF → recM m ≈ₘ m) →
-        ∀ e : VExp R, e.WF → o.stepV recV recM e ≈ᵥ e
-  m : ∀ recV recM, (∀ e : VExp R, e.WF → recV e ≈ᵥ e) → (∀ m : MExp R, m.WF → recM m ≈ₘ m) →
-        ∀ e : MExp R, e.WF → o.stepM recV recM e ≈ₘ e
+  v : ∀ recV recM, (∀ e : VExp R, e.WF → recV e ≈ᵥ e ∧ (recV e).WF) →
+        (∀ m : MExp R, m.WF → recM m ≈ₘ m ∧ (recM m).WF) →
+        ∀ e : VExp R, e.WF → o.stepV recV recM e ≈ᵥ e ∧ (o.stepV recV recM e).WF
+  m : ∀ recV recM, (∀ e : VExp R, e.WF → recV e ≈ᵥ e ∧ (recV e).WF) →
+        (∀ m : MExp R, m.WF → recM m ≈ₘ m ∧ (recM m).WF) →
+        ∀ e : MExp R, e.WF → o.stepM recV recM e ≈ₘ e ∧ (o.stepM recV recM e).WF
 
 /-- **optimize_sound**: if every rule is sound, every composite rewrite — to any depth — denotes
-the same as the original expression. -/
+the same as the original expression (and is again well-formed). -/
 theorem optimize_sound (o : Optimizer R) (h : o.Sound) (n : Nat) :
-    (∀ e : VExp R, e.WF → (o.run n).1 e ≈ᵥ e) ∧ (∀ m : MExp R, m.WF → (o.run n).2 m ≈ₘ m) := by
+    (∀ e : VExp R, e.WF → (o.run n).1 e ≈ᵥ e ∧ ((o.run n).1 e).WF) ∧
+    (∀ m : MExp R, m.WF → (o.run n).2 m ≈ₘ m ∧ ((o.run n).2 m).WF) := by
   induction n with
-  | zero => exact ⟨fun e _ => VExp.equiv_refl e, fun m _ => MExp.equiv_refl m⟩
+  | zero => exact ⟨fun e he => ⟨VExp.equiv_refl e, he⟩, fun m hm => ⟨MExp.equiv_refl m, hm⟩⟩
   | succ n ih => exact ⟨h.v _ _ ih.1 ih.2, h.m _ _ ih.1 ih.2⟩
-
-/-- a concrete optimiser assembled from (a part of) the *generated* rule table: the
-`vector_range_optimizer` family — sub-ranges are pushed through scalar multiples, constants,
-element-wise functors and sums; everything else is left alone. -/
-def rangeOpt : Optimizer R where
-  stepV := fun recV _ e =>
-    match e with
-    | .range (.scal e a) s t => .scal (recV (.range e s t)) a
-    | .range (.const _ a) s t => .const (t - s) a
-    | .range (.unary e f) s t => .unary (recV (.range e s t)) f
-    | .range (.add e1 e2) s t => .add (recV (.range e1 s t)) (recV (.range e2 s t))
-    | .range (.binary e1 e2 f) s t => .binary (recV (.range e1 s t)) (recV (.range e2 s t)) f
-    | e => e
-  stepM := fun _ _ m => m
-
-/-- its soundness follows rule by rule from `Gen/RemoraRules.lean` -/
-theorem rangeOpt_sound : (rangeOpt (R := R)).Sound where
-  v := by
-    intro recV recM hV _ e hwf
-    unfold rangeOpt
-    simp only
-    split
-    · next e a s t =>
-      have hsub : (VExp.range e s t).WF := by simp only [VExp.WF, VExp.size] at hwf ⊢; exact hwf
-      exact Rules.rule_vector_range__vector_scalar_multiply e a s t _ hwf (hV _ hsub)
-    · next n a s t => exact Rules.rule_vector_range__scalar_vector n a s t hwf
-    · next e f s t =>
-      have hsub : (VExp.range e s t).WF := by simp only [VExp.WF, VExp.size] at hwf ⊢; exact hwf
-      exact Rules.rule_vector_range__vector_unary e f s t _ hwf (hV _ hsub)
-    · next e1 e2 s t =>
-      have hwf' := hwf
-      simp only [VExp.WF, VExp.size] at hwf'
-      obtain ⟨⟨w1, w2, hs⟩, hst, hte⟩ := hwf'
-      have h1 : (VExp.range e1 s t).WF := by simp only [VExp.WF]; exact ⟨w1, hst, hte⟩
-      have h2 : (VExp.range e2 s t).WF := by simp only [VExp.WF]; exact ⟨w2, hst, by omega⟩
-      exact Rules.rule_vector_range__vector_addition e1 e2 s t _ _ hwf (hV _ h1) (hV _ h2)
-    · next e1 e2 f s t =>
-      have hwf' := hwf
-      simp only [VExp.WF, VExp.size] at hwf'
-      obtain ⟨⟨w1, w2, hs⟩, hst, hte⟩ := hwf'
-      have h1 : (VExp.range e1 s t).WF := by simp only [VExp.WF]; exact ⟨w1, hst, hte⟩
-      have h2 : (VExp.range e2 s t).WF := by simp only [VExp.WF]; exact ⟨w2, hst, by omega⟩
-      exact Rules.rule_vector_range__vector_binary e1 e2 f s t _ _ hwf (hV _ h1) (hV _ h2)
-    · exact VExp.equiv_refl _
-  m := fun _ _ _ _ m _ => MExp.equiv_refl m
-
-/-- composite rewrites of any depth by `rangeOpt` are denotation preserving -/
-theorem rangeOpt_run_sound (n : Nat) (e : VExp R) (h : e.WF) : ((rangeOpt (R := R)).run n).1 e ≈ᵥ e :=
-  (optimize_sound rangeOpt rangeOpt_sound n).1 e h
 
 /-- the optimiser **generated from the rule table** (`Gen/RemoraOpt.lean`, regenerated on every
 run): all rules of the proxy, scalar-multiply and unary families whose recursive calls take
-sub-terms of the matched expression (65 of the 86 translated rules at this commit,
+results of earlier calls or sub-terms of the matched expression (69 of the 86 translated rules at this commit,
 `Rules.genOptRuleCount`). -/
 def genOpt : Optimizer R := ⟨Rules.genStepV, Rules.genStepM⟩
 
@@ -140,8 +96,8 @@ theorem genOpt_sound : (genOpt (R := R)).Sound where
 
 /-- **every composite rewrite by the generated optimiser, to any depth, preserves the denotation** -/
 theorem genOpt_run_sound (n : Nat) :
-    (∀ e : VExp R, e.WF → ((genOpt (R := R)).run n).1 e ≈ᵥ e) ∧
-    (∀ m : MExp R, m.WF → ((genOpt (R := R)).run n).2 m ≈ₘ m) :=
+    (∀ e : VExp R, e.WF → ((genOpt (R := R)).run n).1 e ≈ᵥ e ∧ (((genOpt (R := R)).run n).1 e).WF) ∧
+    (∀ m : MExp R, m.WF → ((genOpt (R := R)).run n).2 m ≈ₘ m ∧ (((genOpt (R := R)).run n).2 m).WF) :=
   optimize_sound genOpt genOpt_sound n
 
 end Equiv
@@ -607,19 +563,19 @@ example : ∃ (e : (Nat → Int) → Nat → Int),
       ∀ i, e s1 i = e s2 i) :=
   ⟨fun m _ => m 5, fun s1 s2 h _ => h 5 (by decide)⟩
 
-/-- `rangeOpt` really rewrites: `range(2*(u+v), 1, 3)` becomes `2*range(u,1,3) + 2*...` shaped -/
-example : ((rangeOpt (R := Int)).run 3).1
-      (.range (.scal (.add (.lit 4 fun i => (i : Int)) (.const 4 10)) 2) 1 3) =
-    .scal (.add (.range (.lit 4 fun i => (i : Int)) 1 3) (.const 2 10)) 2 := by
-  rfl
-
 /-- `genOpt` really rewrites: `row(2*(u vᵀ) + C, 1)` is pushed through sum, scalar multiple and outer product -/
 example : ((genOpt (R := Int)).run 3).1
       (.row (.add (.scal (.outer (.lit 2 fun i => (i : Int)) (.lit 3 fun j => (j : Int) + 1)) 2) (.const 2 3 5)) 1) =
     .add (.scal (.scal (.lit 3 fun j => (j : Int) + 1) ((VExp.lit 2 fun i => (i : Int)).get 1)) 2) (.const 3 5) := by
   rfl
 
-/-- a well-formed instance for `rangeOpt_run_sound` -/
+/-- the nested rule family (F9): `subrange(3*(A v), 1, 2)` becomes `(3*1)*(rows(A,1,2) v)` — the factor is kept -/
+example : ((genOpt (R := Int)).run 2).1
+      (.range (.mvprod (.lit 3 2 fun i j => (i + j : Int)) (.lit 2 fun k => (k : Int) + 1) 3) 1 2) =
+    .mvprod (.range (.lit 3 2 fun i j => (i + j : Int)) 1 2 0 2) (.lit 2 fun k => (k : Int) + 1) (3 * 1) := by
+  rfl
+
+/-- a well-formed instance for `genOpt_run_sound` -/
 example : (VExp.range (VExp.scal (VExp.add (VExp.lit 4 fun i => (i : Int)) (VExp.const 4 10)) 2) 1 3).WF := by
   simp [VExp.WF, VExp.size]
 
